@@ -353,6 +353,11 @@ func runCheck(prog *Program, cs *ContractSet, pd *PropertyDef, tier string, work
 				return
 			}
 			cross := tier == "thorough" && os.Getenv("GVC_NOCROSS") == ""
+			if prog.known.match(pd.ID, o.Name) != nil {
+				// expected to fail: one attempt on the cone of influence is enough to see whether it still does
+				o.Result = solve(o.exec.slicedQuery(o, -1, true), 5, false, false)
+				return
+			}
 			o.Result = discharge(o, timeout, cross)
 		}(o)
 	}
@@ -475,7 +480,8 @@ func writeEvidence(verifDir string, res *CheckResult, cs *ContractSet, extra map
 	sort.Strings(inl)
 	sort.Strings(scopes)
 	cov := map[string]any{
-		"obligations":              len(res.Obligations),
+		"obligations":              len(res.Obligations) - len(res.Known),
+		"known_finding_obligations": len(res.Known),
 		"discharged":               discharged,
 		"checker_cmd":              fmt.Sprintf("./bin/gvc check -property %s -tier %s", res.Property, res.Tier),
 		"trusted_base":             tb,
